@@ -204,3 +204,21 @@ def intended_snapshot(spec):
                         _content_snap(3, 'diff', f.get('diff'))]})
         root['sub'].append(c)
     return root
+
+
+# ------------------------------------------------------- in-place list edits
+def reversed_spec(spec):
+    """The specification of the tree one gets by reversing ``changes`` and
+    every ``files`` list."""
+    out = copy.deepcopy(spec)
+    out['changes'].reverse()
+    for ch in out['changes']:
+        ch['files'].reverse()
+    return out
+
+
+def reverse_in_place(tree):
+    """Edit the public lists of a live tree directly (no add_* call)."""
+    tree.changes.reverse()
+    for c in tree.changes:
+        c.files.reverse()
